@@ -168,7 +168,7 @@ func c16Sites(t *testing.T, tr *Trace) {
 		in.begin(w.blockGap(b))
 		w.block(b)
 		// (a) x/liquidity/keeper/pool.go TransferFundsForSwapFeeDistribution, every pool of the multi-pool pairs
-		for _, poolID := range []uint64{1, 2, 3, 4, 5} {
+		for _, poolID := range []uint64{1, 2, 5, 6, 8, 10} {
 			d := c16Distinct(hookRuns, func(int) string {
 				cc, _ := in.ctx.CacheContext()
 				coin, err := in.app.LiquidityKeeper.TransferFundsForSwapFeeDistribution(cc, c16AppSwap, poolID)
